@@ -30,7 +30,9 @@ ASSUMPTIONS = ["only documented spellings are judged: member names and values of
                "an uncaught exception in cli.main() is a non-zero exit", "README.md lines 120-133 are the specification of the value syntax",
                "restricted-profile cases use units that may report a fan speed their capabilities exclude; on the unchanged tree that exposes the known "
                "finding fan-reset-to-auto/display-toggle-after-capabilities (known_findings.json), keyed by mechanism so that the same symptom on any other path is still reported"]
-ANCHORS = ["cli.py:_control", "cli.py:_connect", "cli.py:main", "device.py:AirConditioner.apply", "device.py:AirConditioner.toggle_display"]
+# reach anchors: only entry points this check calls itself or callbacks the event loop needs (robust against internal refactors);
+# that the mechanism was really exercised is demanded through MIN_NONTRIVIAL / MIN_HIST outcome counts
+ANCHORS = ["cli.py:main", "device.py:AirConditioner.apply", "device.py:AirConditioner.refresh"]
 MIN_NONTRIVIAL = {"quick": 900, "thorough": 20000}
 MIN_HIST = {"quick": {"valid-ok": 600, "invalid-rejected-cleanly": 120}, "thorough": {"valid-ok": 15000, "invalid-rejected-cleanly": 1500}}
 WORKERS = {"quick": 1, "thorough": 16}
@@ -62,7 +64,8 @@ INVALID = [
     ["power_state=maybe"], ["power_state=yesno"], ["power_state=tru"], ["eco=onn"], ["beep=loud"],
     ["target_temperature=warm"], ["target_temperature=twenty"], ["target_humidity=damp"],
     ["operational_mode=frozen"], ["operational_mode=99"], ["operational_mode=0"], ["swing_mode=sideways"], ["swing_mode=7"], ["fan_speed=fast"],
-    ["aux_mode=9"], ["rate_select=33"], ["horizontal_swing_angle=37"], ["vertical_swing_angle=up"],
+    ["aux_mode=9"], ["rate_select=33"], ["operational_mode=2.5"], ["swing_mode=3.7"], ["aux_mode=1.2"], ["rate_select=50.5"], ["horizontal_swing_angle=25.5"],
+    ["vertical_swing_angle=1.9"], ["operational_mode=4.999"], ["swing_mode=-0.5"], ["horizontal_swing_angle=37"], ["vertical_swing_angle=up"],
     ["target_temperature=nan"], ["target_temperature=inf"], ["target_temperature=-inf"], ["target_temperature=Infinity"], ["target_temperature=NaN"],
     ["target_humidity=nan"], ["target_humidity=inf"], ["target_temperature=None"], ["target_temperature=[20]"], ["target_temperature=(20,)"],
     ["target_temperature={}"], ["target_temperature=20+1j"], ["target_temperature=..."], ["target_temperature=20.5.1"], ["target_temperature=--5"],
@@ -98,6 +101,11 @@ def generate(ctx, rng):
                 for sp in _spellings(m.name):
                     yield case([[name, sp, int(m)]])
                 yield case([[name, str(int(m)), int(m)]])
+            # alias member names (every enum has DEFAULT)
+            for alias, m in enum.__members__.items():
+                if alias != m.name:
+                    for sp in _spellings(alias):
+                        yield case([[name, sp, int(m)]])
     for v in [1, 19, 21, 33, 50, 55, 79, 99, 101]:
         yield case([["fan_speed", str(v), v]])
     # the command's first use of a setting in a brand-new process (the CLI is a process of its own): msmart is imported afresh
